@@ -123,51 +123,73 @@ def degKind : String → DegKind
   | "out" => .outdeg
   | _ => .deg
 
-def query (s : State) : List String → String
-  | ["retrieveprefix", x] => renderE (fun b => "ok " ++ hx b) (s.retrievePrefix (unx x))
-  | ["potential", x] => renderE (fun o => match o with | some b => "ok " ++ hx b | none => "ok false") (s.potentialPrefix (unx x))
-  | ["retrievewe", x] => renderE (fun n => "ok " ++ toString n) (s.retrieveWebentity (unx x))
-  | ["webyprefix", x] => renderE (fun n => "ok " ++ toString n) (s.webentityByPrefix (unx x))
-  | ["pages", _, ps] => renderE renderPages (s.webentityPages (unxList ps))
-  | ["crawledpages", _, ps] => renderE renderPages (s.webentityCrawledPages (unxList ps))
-  | ["paginate", _, ps, k, tok, co] =>
-    renderE (fun (c : PageChunk) => "ok done=" ++ b01 c.done ++ " count=" ++ toString c.count ++ " crawled=" ++
+def tokArg (tok : String) : Option Bytes := if tok == "-" then none else some (strBytes tok)
+
+def renderAns : Ans → String
+  | .unit => "ok"
+  | .report r => renderReport r
+  | .bytes b => "ok " ++ hx b
+  | .optBytes (some b) => "ok " ++ hx b
+  | .optBytes none => "ok false"
+  | .nat n => "ok " ++ toString n
+  | .optNat (some n) => "ok " ++ toString (n * Layout.trieBlock)
+  | .optNat none => "ok none"
+  | .nats l => renderNats l
+  | .pages l => renderPages l
+  | .pageChunk c => "ok done=" ++ b01 c.done ++ " count=" ++ toString c.count ++ " crawled=" ++
         toString c.crawled ++ " pages=" ++ brack (c.pages.map (fun p => hx p.1 ++ ":" ++ b01 p.2)) ++ " token=" ++
-        (match c.token with | some t => asciiStr t | none => "-"))
-      (s.paginatePages (unxList ps) (optNat k) (if tok == "-" then none else some (strBytes tok)) (is1 co))
-  | ["mostlinked", _, ps, k, d] =>
-    renderE (fun l => "ok " ++ brack (l.map (fun p => hx p.1 ++ ":" ++ toString p.2)))
-      (s.mostLinked (unxList ps) (k.toNat?.getD 10) (optNat d))
-  | ["parents", w, ps] => renderE renderNats (s.parentWebentities (w.toNat?.getD 0) (unxList ps))
-  | ["children", w, ps] => renderE renderNats (s.childWebentities (w.toNat?.getD 0) (unxList ps))
-  | ["pagelinks", w, ps, i, n, o] =>
-    renderE (fun l => "ok " ++ renderLinks l) (s.webentityPagelinks (w.toNat?.getD 0) (unxList ps) (is1 i) (is1 n) (is1 o))
-  | ["paginatelinks", w, ps, n, o, k, tok] =>
-    renderE (fun (c : LinkChunk) => "ok done=" ++ b01 c.done ++ " sources=" ++ toString c.sourcePages ++
-        " links=" ++ renderLinks c.links ++ " token=" ++ (match c.token with | some t => asciiStr t | none => "-"))
-      (s.paginateLinks (w.toNat?.getD 0) (unxList ps) (is1 n) (is1 o) (optNat k)
-        (if tok == "-" then none else some (strBytes tok)))
-  | ["weout", _, ps] => renderE renderNats (s.citedWebentities (unxList ps) true)
-  | ["wein", _, ps] => renderE renderNats (s.citedWebentities (unxList ps) false)
-  | ["pagelinksof", x, i, n, o] => "ok " ++ renderLinks (s.pageLinks (unx x) (is1 i) (is1 n) (is1 o))
-  | ["pagedeg", x, kind, w] => "ok " ++ toString (s.pageDegree (unx x) (degKind kind) (is1 w))
-  | ["network", o, a, slow] => renderNet (if is1 slow then s.networkSlow (is1 o) (is1 a) else s.network (is1 o) (is1 a))
-  | ["expand", p] => "ok " ++ brack ((lruVariations (unx p)).map hx)
-  | ["variations", p] => "ok " ++ brack ((lruVariations (unx p)).map hx)
-  | ["linksiter", o] => "ok " ++ brack (sortStrings ((s.linksIter (is1 o)).map (fun p => hx p.1 ++ ">" ++ hx p.2)))
-  | ["pagesiter"] => renderPages s.pagesIter
-  | ["prefixiter"] => "ok " ++ brack (s.prefixIter.map (fun p => hx p.1 ++ ":" ++ toString p.2))
-  | ["counts"] => "ok pages=" ++ toString s.countPages ++ " crawled=" ++ toString s.countCrawledPages ++
-      " links2=" ++ toString s.countLinks2
-  | ["metrics"] =>
-    let m := s.metrics
-    if m.nbStems == 0 then "err other ZeroDivisionError" else
-    let lm := s.linksMetrics
+        (match c.token with | some t => asciiStr t | none => "-")
+  | .ranked l => "ok " ++ brack (l.map (fun p => hx p.1 ++ ":" ++ toString p.2))
+  | .links l => "ok " ++ renderLinks l
+  | .linkChunk c => "ok done=" ++ b01 c.done ++ " sources=" ++ toString c.sourcePages ++
+        " links=" ++ renderLinks c.links ++ " token=" ++ (match c.token with | some t => asciiStr t | none => "-")
+  | .net g => renderNet g
+  | .bytesList l => "ok " ++ brack (l.map hx)
+  | .pairs l => "ok " ++ brack (sortStrings (l.map (fun p => hx p.1 ++ ">" ++ hx p.2)))
+  | .prefixes l => "ok " ++ brack (l.map (fun p => hx p.1 ++ ":" ++ toString p.2))
+  | .counts p c l => "ok pages=" ++ toString p ++ " crawled=" ++ toString c ++ " links2=" ++ toString l
+  | .metrics m l2 lm =>
     let o := fun (x : Option Bytes) => match x with | some b => hx b | none => "none"
     "ok nodes=" ++ toString m.nbNodes ++ " pages=" ++ toString m.nbPages ++ " crawled=" ++ toString m.nbCrawled ++
       " tail=" ++ toString m.nbTail ++ " frag=" ++ toString m.nbFragmented ++ " stems=" ++ toString m.nbStems ++
-      " maxtail=" ++ toString m.maxTail ++ " links2=" ++ toString s.countLinks2 ++
+      " maxtail=" ++ toString m.maxTail ++ " links2=" ++ toString l2 ++
       " maxin=" ++ toString lm.1 ++ ":" ++ o lm.2.1 ++ " maxout=" ++ toString lm.2.2.1 ++ ":" ++ o lm.2.2.2
+  | .blocks l => "ok " ++ brack (l.map (fun bl => toString (bl.1 * Layout.trieBlock) ++ ":" ++ hx bl.2))
+  | .err e => errStr e
+
+def parseQuery : List String → Option Query
+  | ["retrieveprefix", x] => some (.retrievePrefix (unx x))
+  | ["potential", x] => some (.potentialPrefix (unx x))
+  | ["retrievewe", x] => some (.retrieveWebentity (unx x))
+  | ["webyprefix", x] => some (.webentityByPrefix (unx x))
+  | ["pages", _, ps] => some (.pages (unxList ps))
+  | ["crawledpages", _, ps] => some (.crawledPages (unxList ps))
+  | ["paginate", _, ps, k, tok, co] => some (.paginatePages (unxList ps) (optNat k) (tokArg tok) (is1 co))
+  | ["mostlinked", _, ps, k, d] => some (.mostLinked (unxList ps) (k.toNat?.getD 10) (optNat d))
+  | ["parents", w, ps] => some (.parents (w.toNat?.getD 0) (unxList ps))
+  | ["children", w, ps] => some (.children (w.toNat?.getD 0) (unxList ps))
+  | ["pagelinks", w, ps, i, n, o] => some (.pagelinks (w.toNat?.getD 0) (unxList ps) (is1 i) (is1 n) (is1 o))
+  | ["paginatelinks", w, ps, n, o, k, tok] =>
+    some (.paginateLinks (w.toNat?.getD 0) (unxList ps) (is1 n) (is1 o) (optNat k) (tokArg tok))
+  | ["weout", _, ps] => some (.cited (unxList ps) true)
+  | ["wein", _, ps] => some (.cited (unxList ps) false)
+  | ["pagelinksof", x, i, n, o] => some (.pageLinks (unx x) (is1 i) (is1 n) (is1 o))
+  | ["pagedeg", x, kind, w] => some (.pageDegree (unx x) (degKind kind) (is1 w))
+  | ["network", o, a, slow] => some (.network (is1 o) (is1 a) (is1 slow))
+  | ["expand", p] => some (.expand (unx p))
+  | ["linksiter", o] => some (.linksIter (is1 o))
+  | ["pagesiter"] => some .pagesIter
+  | ["prefixiter"] => some .prefixIter
+  | ["counts"] => some .counts
+  | ["metrics"] => some .metrics
+  | ["lrunode", x] => some (.lruNode (unx x))
+  | ["windup", b] => some (.windup ((b.toNat?.getD 0) / Layout.trieBlock))
+  | ["dfs"] => some .dfs
+  | _ => none
+
+/-- helper-function probes that are not index requests -/
+def helperQuery : List String → String
+  | ["variations", p] => "ok " ++ brack ((lruVariations (unx p)).map hx)
   | ["token", i, p] =>
     let t := buildToken (i.toNat?.getD 0) (p.toNat?.getD 0)
     "ok " ++ asciiStr t ++ " " ++ (match parseToken t with
@@ -176,45 +198,42 @@ def query (s : State) : List String → String
   | ["rule", r, x] => (match Rule.ofName r with
       | some r => (match r.search (unx x) with | some m => "ok " ++ hx m | none => "ok none")
       | none => "bad-op")
-  | ["lrunode", x] => (match s.lruNode (lruIter (unx x)) with
-      | some n => "ok " ++ toString (n * Layout.trieBlock) | none => "ok none")
-  | ["windup", b] => "ok " ++ hx (s.windup ((b.toNat?.getD 0) / Layout.trieBlock))
-  | ["dfs"] => "ok " ++ brack ((s.dfsIter none false).map (fun bl => toString (bl.1 * Layout.trieBlock) ++ ":" ++ hx bl.2))
   | _ => "bad-op"
+
+def parseOp : List String → Option Op
+  | ["reopen", d, rs] => (match Rule.ofName d, parseRules rs with
+     | some d, some rs => some (.reopen d rs) | _, _ => none)
+  | ["clear", d, rs] =>
+    let d' := if d == "-" then some none else (Rule.ofName d).map some
+    let rs' := if rs == "none" then some none else (parseRules rs).map some
+    (match d', rs' with | some d, some rs => some (.clear d rs) | _, _ => none)
+  | ["addrule", a, r] => (Rule.ofName r).map (fun r => .addRule (unx a) r)
+  | ["rmrule", a] => some (.removeRule (unx a))
+  | ["create", ps] => some (.create (unxList ps))
+  | ["delete", w, ps] => some (.delete (w.toNat?.getD 0) (unxList ps))
+  | ["addprefix", p, w] => some (.addPrefix (unx p) (w.toNat?.getD 0))
+  | ["rmprefix", p, w] => some (.removePrefix (unx p) (optNat w))
+  | ["moveprefix", p, t, f] => some (.movePrefix (unx p) (t.toNat?.getD 0) (optNat f))
+  | ["addpage", x, c] => some (.addPage (unx x) (is1 c))
+  | ["addpages", xs, c] => some (.addPages (unxList xs) (is1 c))
+  | ["addlinks", ls] => some (.addLinks (parseLinks ls))
+  | ["batch", d] => some (.batch (parseBatch d))
+  | _ => none
 
 def step (s : State) (line : String) : State × String :=
   match line.trimAscii.toString.splitOn " " with
   | ["init", _backend, d, rs, cfg] =>
     (match Rule.ofName d, parseRules rs with
-     | some d, some rs => wr okUnit (State.fresh (cfgOfBits cfg) d rs)
+     | some d, some rs => let r := State.fresh (cfgOfBits cfg) d rs; (r.1, renderAns (.ofExcept (fun _ => .unit) r.2))
      | _, _ => (s, "bad-op"))
-  | ["reopen", d, rs] =>
-    (match Rule.ofName d, parseRules rs with
-     | some d, some rs => (s.reopen d rs, "ok")
-     | _, _ => (s, "bad-op"))
-  | ["clear", d, rs] =>
-    let d' := if d == "-" then some none else (Rule.ofName d).map some
-    let rs' := if rs == "none" then some none else (parseRules rs).map some
-    (match d', rs' with
-     | some d, some rs => wr okUnit (s.clear d rs)
-     | _, _ => (s, "bad-op"))
-  | ["addrule", a, r] => (match Rule.ofName r with
-     | some r => wr renderReport (s.addRule (unx a) r true)
-     | none => (s, "bad-op"))
-  | ["rmrule", a] => wr okUnit (s.removeRule (unx a))
-  | ["create", ps] => wr renderReport (s.createWebentity (unxList ps))
-  | ["delete", w, ps] => wr okUnit (s.deleteWebentity (w.toNat?.getD 0) (unxList ps))
-  | ["addprefix", p, w] => wr okUnit (s.addPrefix (unx p) (w.toNat?.getD 0))
-  | ["rmprefix", p, w] => wr okUnit (s.removePrefix (unx p) (optNat w))
-  | ["moveprefix", p, t, f] => wr okUnit (s.movePrefix (unx p) (t.toNat?.getD 0) (optNat f))
-  | ["addpage", x, c] => wr renderReport (s.addPage (unx x) (is1 c))
-  | ["addpages", xs, c] => wr renderReport (s.addPages (unxList xs) (is1 c))
-  | ["addlinks", ls] => wr renderReport (s.addLinks (parseLinks ls))
-  | ["batch", d] => wr renderReport (s.batch (parseBatch d))
-  | "?" :: q => (s, query s q)
+  | "?" :: q => (match parseQuery q with
+     | some qq => (s, renderAns (s.ask qq))
+     | none => (s, helperQuery q))
   | ["hash"] => (s, imageLine s)
   | ["dump"] => (s, "T=" ++ hx (encodeTrie s) ++ " L=" ++ hx (encodeLinks s))
-  | _ => (s, "bad-op")
+  | ws => (match parseOp ws with
+     | some op => let r := s.step op; (r.1, renderAns r.2)
+     | none => (s, "bad-op"))
 
 partial def loop (h : IO.FS.Stream) (out : IO.FS.Stream) (s : State) : IO Unit := do
   let line ← h.getLine
